@@ -32,7 +32,7 @@ ASSUMPTIONS = [
 
 def gen_case(rng: random.Random, tier: str) -> dict:
     feats = {**gen.gen_feats(rng), "loops": False}
-    g = gen.gen_program(rng, feats=feats, max_nodes=7)
+    g = gen.gen_program(rng, feats=feats, max_nodes=9 if tier == "thorough" else 7)
     for nd, _d, _p in iter_nodes(g):
         if nd["kind"] in ("route", "ifelse") and rng.random() < 0.5:
             nd["cache"] = True
